@@ -1,6 +1,10 @@
 pub mod c01;
 pub mod c03;
 pub mod acc;
+pub mod c05;
+pub mod cobs;
+pub mod crc;
+pub mod stacks;
 
 use crate::rt::{Ctx, Tier};
 
@@ -15,7 +19,12 @@ pub fn run(id: &str, tier: Tier, seed: u64) -> i32 {
         "C02" => c01::run(&ctx, true),
         "C03" => c03::run(&ctx, false),
         "C04" => c03::run(&ctx, true),
+        "C05" => c05::run(&ctx),
+        "C06" => cobs::run_c06(&ctx),
+        "C07" => cobs::run_c07(&ctx),
         "C08" => acc::run(&ctx, false),
+        "C10" => crc::run(&ctx),
+        "C20" => stacks::run(&ctx),
         "C09" => acc::run(&ctx, true),
         _ => {
             eprintln!("unknown property {id}");
